@@ -624,13 +624,26 @@ def rule_t6(F):
     """Control-flow constants: the value a condition is switched on and the branch it selects."""
     r = RuleResult("C01.T6", "control-flow lowering constants: `true` (1) selects then / loop body / the && continuation, || continues on 0; primitive name table", floor=4 + 16)
     L = "mir::lower::Lowerer::<'r>::"
-    spec = {"if_else": ("lbl_then", 1), "r#while": ("lbl_body", 1)}
-    for fn, (lbl, val) in spec.items():
+    spec = {"if_else": ("then block", 1), "r#while": ("loop body", 1)}
+    for fn, (what, val) in spec.items():
         b = F.body(L + fn)
         if b is None:
             r.missing(L + fn)
             continue
         ld = hir.LocalDefs(b.hir)
+        # the label of the block in which the first Block child (then branch / loop body) is lowered: the argument of the last
+        # new_block(..) before the visit of that child - found by walking the statements in order, not by its name
+        bpos = [i for i, p_ in enumerate(b.hir["params"]) if "Meta<ast::Block>" in (p_.get("ty") or "") and "Option<" not in (p_.get("ty") or "")]
+        bl = b.hir["params"][bpos[0]].get("local") if bpos else None
+        target = None
+        last_nb = None
+        for n in hir.walk(b.hir["value"]):
+            if n.get("k") != "mcall":
+                continue
+            if n["m"] == "new_block" and n["args"]:
+                last_nb = hir.res_local(hir.peel_refs(hir.strip(n["args"][0])))
+            if n["m"] == "block" and n["args"] and hir.res_local(hir.peel_refs(hir.strip(n["args"][0]))) == bl and target is None:
+                target = last_nb
         ok = False
         found = None
         for c in hir.nodes(b.hir["value"], "mcall"):
@@ -641,24 +654,26 @@ def rule_t6(F):
             if l is not None and ld.get(l) and ld.get(l)[1] is not None:
                 br = ld.get(l)[1]
             lits = int_lits(br)
-            nm = {n["res"]["name"] for n in hir.walk(br) if n.get("k") == "path" and hir.res_local(n) is not None}
-            found = (lits, sorted(nm))
-            ok = lits == [val] and lbl in nm
-        r.inst("%s switch" % fn, {"fn": fn, "branches": found})
+            locs = {hir.res_local(n) for n in hir.walk(br) if n.get("k") == "path" and hir.res_local(n) is not None}
+            found = (lits, target in locs)
+            ok = lits == [val] and target is not None and target in locs
+        r.inst("%s switch" % fn, {"fn": fn, "branch_values": found[0] if found else None, "selects_the_%s" % what.replace(" ", "_"): found[1] if found else None})
         if not ok:
-            r.bad(L + fn, "switch constant", relfile(b.file), b.line, "%s must branch to %s when the condition is %d (true); found %s" % (fn, lbl, val, found))
+            r.bad(L + fn, "switch constant", relfile(b.file), b.line, "%s must branch to the %s when the condition is %d (true); found values %s, selects that block: %s" % (fn, what, val, found[0] if found else None, found[1] if found else None))
     for fn, want in (("binop_and", 1), ("binop_or", 0)):
         b = F.body(L + fn)
         if b is None:
             r.missing(L + fn)
             continue
         got = None
+        ld = hir.LocalDefs(b.hir)
+        epos = [i for i, p_ in enumerate(b.hir["params"]) if "Meta<ast::Expr>" in (p_.get("ty") or "")]
         for c in hir.nodes(b.hir["value"], "mcall"):
             if c["m"] == "shortcircuit_binop":
                 got = int_lits(c["args"][3])
-                ln = [sorted(n["res"]["name"] for n in hir.walk(a) if n.get("k") == "path" and hir.res_local(n) is not None) for a in c["args"][:2]]
-                if ln != [["l"], ["r"]]:
-                    r.bad(L + fn, "operands", relfile(b.file), c["line"], "%s passes %s as (left, right)" % (fn, ln))
+                ln = [sorted(hir.param_roots(b.hir, ld, a) - {0}) for a in c["args"][:2]]
+                if len(epos) < 2 or ln != [[epos[0]], [epos[1]]]:
+                    r.bad(L + fn, "operands", relfile(b.file), c["line"], "%s passes parameters %s as (left, right), expected %s" % (fn, ln, epos[:2]))
         r.inst("%s evaluates the right operand when the left is" % fn, {"value": got})
         if got != [want]:
             r.bad(L + fn, "short-circuit constant", relfile(b.file), b.line, "%s must evaluate its right operand exactly when the left one is %d; found %s" % ("&&" if want else "||", want, got))
